@@ -408,6 +408,20 @@ def binop(op, a, b):
     if op == "*":
         return mul(a, b)
     ca, cb = const_value(a), const_value(b)
+    # a power of two written 1 << x is positive (shift amounts inside the word are the documented domain): 0 < (1 << x), (1 << x) >= 1
+    p2 = lambda t_: isinstance(t_, tuple) and t_[0] == "op" and t_[1] == "<<" and t_[2] == ("int", 1)
+    if op in ("<", "<=", ">", ">=", "!=", "==") and (p2(a) and cb is not None or p2(b) and ca is not None):
+        lo_c, flip_ = (cb, False) if p2(a) else (ca, True)          # compare 2^x (>= 1) with the literal lo_c
+        rel = {"<": ">", "<=": ">=", ">": "<", ">=": "<=", "!=": "!=", "==": "=="}[op] if flip_ else op
+        if lo_c <= 0:
+            if rel in (">", ">=", "!="):
+                return I(1)
+            if rel in ("<", "<=", "=="):
+                return I(0)
+        if lo_c == 1 and rel == ">=":
+            return I(1)
+        if lo_c == 1 and rel == "<":
+            return I(0)
     if op == "/" and cb not in (None, 0) and ca is None:
         # exact division of a polynomial all of whose coefficients are multiples of the constant
         items = poly_items(a)
